@@ -595,3 +595,114 @@ def c14_open_files_search(meta, seed, budget):
         yield {"fds": [(3 + i, rng.choice(kinds), rng.randrange(4) | rng.choice(extras), rng.choice([0, 1, 2 ** 40, 2 ** 63 - 1]))
                        for i in range(k)]}
         n += 1
+
+
+# ---------------------------------------------------------------------------
+# C12
+# ---------------------------------------------------------------------------
+
+@runner("c12:cmdline")
+def c12_cmdline(model, meta):
+    from psutil import _pslinux
+    pid = 4600
+    data = model.get("cmdline_data", "")
+    raw = data.encode("utf-8", "surrogateescape") if isinstance(data, str) else data
+    zombie = bool(model.get("is_zombie", False))
+    F = stat_fields(__import__("random").Random(4))
+    F[0] = b"Z" if zombie else b"S"
+    with fake_procfs({f"{pid}/cmdline": raw, f"{pid}/stat": build_stat(pid, b"x", F)}):
+        p = _pslinux.Process(pid)
+        try:
+            res, exc = p.cmdline(), None
+        except Exception as e:  # noqa: BLE001
+            res, exc = None, e
+    if exc is not None:
+        # xpost check: ZombieProcess only for an empty cmdline of a zombie
+        bad = not (type(exc).__name__ == "ZombieProcess" and data == "" and zombie)
+        return {"env": {"data": data, "zombie": zombie, "NUL": "\x00", "self": p}, "result": None, "exc": exc, "verdict": bad}
+    return {"env": {"data": raw.decode("utf-8", "surrogateescape"), "zombie": zombie, "NUL": "\x00", "self": p},
+            "result": res, "exc": exc}
+
+
+@search("c12:cmdline")
+def c12_cmdline_search(meta, seed, budget):
+    import itertools
+    alphabet = ["\x00", " ", "a", "-"]
+    n = 0
+    for ln in range(0, 6):
+        for tup in itertools.product(alphabet, repeat=ln):
+            for z in (False, True):
+                yield {"cmdline_data": "".join(tup), "is_zombie": z}
+                n += 1
+                if n >= budget:
+                    return
+
+
+@runner("c12:readlink")
+def c12_readlink(model, meta):
+    from psutil import _pslinux
+    target = model.get("link_target", "")
+    exists = bool(model.get("suffixed_path_exists", False))
+    denied = "denied=True" in meta.get("cfg", "")
+
+    def pes(path):
+        if denied:
+            raise PermissionError(13, "denied")
+        return exists
+
+    with mock.patch.object(_pslinux.os, "readlink", lambda p: target), \
+            mock.patch.object(_pslinux, "path_exists_strict", pes):
+        try:
+            res, exc = _pslinux.readlink("/proc/1/exe"), None
+        except Exception as e:  # noqa: BLE001
+            res, exc = None, e
+    return {"env": {"target": target, "exists": exists, "NUL": "\x00", "denied": denied}, "result": res, "exc": exc}
+
+
+@search("c12:readlink")
+def c12_readlink_search(meta, seed, budget):
+    for t in ["/bin/cat", "/bin/cat (deleted)", "/a\x00junk", "/a (deleted)\x00 (deleted)", " (deleted)", "", "\x00",
+              "/x (deleted) (deleted)", "/a (deleted)b"]:
+        for e in (False, True):
+            yield {"link_target": t, "suffixed_path_exists": e}
+
+
+def ref_environ(data):
+    """reference parser written from the property statement"""
+    ret = {}
+    pos = 0
+    while True:
+        nxt = data.find("\0", pos)
+        if nxt < 0 or nxt == pos:
+            break                      # text after the last NUL is ignored; an empty entry ends the block
+        entry = data[pos:nxt]
+        eq = entry.find("=")
+        if eq > 0:
+            ret[entry[:eq]] = entry[eq + 1:]
+        pos = nxt + 1
+    return ret
+
+
+@runner("c12:environ")
+def c12_environ(model, meta):
+    from psutil import _common
+    data = model["data"]
+    try:
+        res, exc = _common.parse_environ_block(data), None
+    except Exception as e:  # noqa: BLE001
+        res, exc = None, e
+    want = ref_environ(data)
+    return {"env": {"data": data}, "result": res, "exc": exc, "verdict": exc is not None or res != want, "expected": want}
+
+
+@search("c12:environ")
+def c12_environ_search(meta, seed, budget):
+    import itertools
+    alphabet = ["\x00", "=", "a", "b"]
+    n = 0
+    for ln in range(0, 10):
+        for tup in itertools.product(alphabet, repeat=ln):
+            yield {"data": "".join(tup)}
+            n += 1
+            if n >= budget:
+                return
